@@ -577,6 +577,10 @@ func checkC10(p *Prog, r *Report) {
 			r.Check(!dropped, f.Name+": Run's error is observed", p.Pos(c.Pos()), "returned or tested", "the closed/cancelled error of loop.Run is ignored: after Close the call looks successful")
 		}
 	}
+
+	// ---- R10.5 the role flag is used only inside the loop ----
+	r.Rule("R10.5", "The controlling/controlled flag is read and written only by code that runs inside the task loop or during construction: no exported entry point tests the role before queueing the task that depends on it.", 5)
+	checkRoleFlagConfined(p, r)
 }
 
 // insideAtomicCall: the selector is an argument (&x.f) of a sync/atomic call.
